@@ -740,5 +740,47 @@ func Catalogue(opt Options) []*Unit {
 				return []interface{}{base.Where(st.args[0], st.args[1:]...).Or(B2.expr)}
 			}})
 	}
+
+	// ---------------------- named-argument strings x the keyword-spelling set
+	// (appended at the end: indices above stay stable)
+	for si, sp := range seps {
+		for _, conn := range []string{"or", "and"} {
+			if conn == "and" && !(sp.name == "space-lower" || sp.name == "space-newline") {
+				continue
+			}
+			if si == 0 {
+				continue // " OR " / " AND " upper case exist above
+			}
+			if sp.name == "tab" {
+				// (X) a TAB does not end a @name in gorm's named-argument syntax (only
+				// space , ) quotes CR LF ; do): "a = @a<TAB>OR ..." fails with "not
+				// enough args" - an error of that syntax, outside this alphabet
+				continue
+			}
+			text := "a = @a" + fmt.Sprintf(sp.fmt, sp.kw(conn)) + "b = @b"
+			if sp.name == "paren" {
+				text = "(a = @a" + fmt.Sprintf(sp.fmt, sp.kw(conn)) + "b = @b)"
+			}
+			t, neg, mem := bin(conn, A1.n, B1.n)
+			rep := 0
+			if sp.name == "space-lower" && conn == "or" {
+				rep = 2
+			}
+			add(&Unit{Label: fmt.Sprintf(`%q,sql.Named("a",1),sql.Named("b",1)`, text), Render: "named", Conn: conn, Tree: t, Neg: neg, NegOK: true, Members: mem,
+				Unqualified: true, Rep: rep, Ext: rep == 0, OddOr: sp.odd && conn == "or", OddAnd: sp.odd && conn == "and",
+				Args: static(text, sql.Named("a", 1), sql.Named("b", 1))})
+		}
+	}
+	{
+		t, neg, mem := bin("or", A1.n, B1.n)
+		add(&Unit{Label: `"a = @a or b = @b",map{"a":1,"b":1}`, Render: "named", Conn: "or", Tree: t, Neg: neg, NegOK: true, Members: mem, Unqualified: true, Ext: true,
+			Args: static("a = @a or b = @b", map[string]interface{}{"a": 1, "b": 1})})
+		add(&Unit{Label: `"a = @a Or b = @b",map{"a":1,"b":1}`, Render: "named", Conn: "or", Tree: t, Neg: neg, NegOK: true, Members: mem, Unqualified: true, Ext: true,
+			Args: static("a = @a Or b = @b", map[string]interface{}{"a": 1, "b": 1})})
+		add(&Unit{Label: `"a = @A or b = @B",Cols{A:1,B:1}`, Render: "named", Conn: "or", Tree: t, Neg: neg, NegOK: true, Members: mem, Unqualified: true, Ext: true,
+			Args: static("a = @A or b = @B", Cols{A: 1, B: 1})})
+		add(&Unit{Label: `"a = @A OR b = @B",&Cols{A:1,B:1}`, Render: "named", Conn: "or", Tree: t, Neg: neg, NegOK: true, Members: mem, Unqualified: true, Ext: true,
+			Args: static("a = @A OR b = @B", &Cols{A: 1, B: 1})})
+	}
 	return us
 }
